@@ -302,10 +302,12 @@ class Interp:
 
     # ---------------------------------------------------------------- int terms
     def is_int(self, v):
-        return (isinstance(v, int) and not isinstance(v, bool)) or isinstance(v, (SInt, SBV)) or isinstance(v, bool)
+        return (isinstance(v, int) and not isinstance(v, bool)) or isinstance(v, (SInt, SBV, TInt)) or isinstance(v, bool)
 
     def it(self, v):
         """Int-sorted z3 term of an integer-like value (Int mode)."""
+        if isinstance(v, TInt):
+            v = v.val
         if isinstance(v, bool):
             return I(1 if v else 0)
         if isinstance(v, int):
@@ -347,6 +349,8 @@ class Interp:
     def bvt(self, v):
         """(term, bound) in bv mode"""
         W = self.bv
+        if isinstance(v, TInt):
+            v = v.val
         if isinstance(v, bool):
             v = int(v)
         if isinstance(v, int):
@@ -431,6 +435,8 @@ class Interp:
 
     # ---------------------------------------------------------------- truthiness
     def truth(self, v):
+        if isinstance(v, TInt):
+            v = v.val
         if isinstance(v, (bool, SBool)):
             return v
         if v is None:
@@ -502,17 +508,18 @@ class Interp:
 
     def ob_at(self, c, k):
         """byte k (python int) of OB chunk c as Int term"""
-        t = c.t
-        if z3.is_app(t) and t.decl().eq(B_slice):
-            base, a = t.arg(0), t.arg(1)
-            term = B_at(base, z3.simplify(a + k))
-        elif z3.is_app(t) and t.decl().eq(B_rev) and id_key(t.arg(0)) in self.p.blen:
-            n = self.p.blen[id_key(t.arg(0))]
-            term = B_at(t.arg(0), z3.simplify((n if not isinstance(n, int) else I(n)) - 1 - k))
-        else:
-            term = B_at(t, I(k))
-        self.byte_range_assume(term)
-        return term
+        return self.ob_at_sym(c, I(k))
+
+    def _at(self, base, idx):
+        """byte idx (Int term) of B-term base, looking through b_rev / b_slice"""
+        idx = z3.simplify(idx)
+        if z3.is_app(base) and base.decl().eq(B_rev) and id_key(base.arg(0)) in self.p.blen:
+            n = self.p.blen[id_key(base.arg(0))]
+            n = I(n) if isinstance(n, int) else n
+            return self._at(base.arg(0), n - 1 - idx)
+        if z3.is_app(base) and base.decl().eq(B_slice):
+            return self._at(base.arg(0), base.arg(1) + idx)
+        return B_at(base, idx)
 
     def chunk_byte(self, c, k):
         """byte k of chunk c (k python int within concrete-length chunk) -> int | Int term"""
@@ -574,13 +581,7 @@ class Interp:
                         kt = kt + self.it(n)
                     else:
                         raise PyExc(IndexError)
-                c = chunks[0]
-                t = c.t
-                if z3.is_app(t) and t.decl().eq(B_slice):
-                    term = B_at(t.arg(0), z3.simplify(t.arg(1) + kt))
-                else:
-                    term = B_at(t, z3.simplify(kt))
-                self.byte_range_assume(term)
+                term = self.ob_at_sym(chunks[0], kt)
                 return self.int_from_term(term, 8)
             kk = self.p.concretize(self.it(k))
             return self.bytes_index(v, kk)
@@ -619,11 +620,7 @@ class Interp:
         raise PyExc(IndexError)
 
     def ob_at_sym(self, c, kt):
-        t = c.t
-        if z3.is_app(t) and t.decl().eq(B_slice):
-            term = B_at(t.arg(0), z3.simplify(t.arg(1) + kt))
-        else:
-            term = B_at(t, kt)
+        term = self._at(c.t, kt)
         self.byte_range_assume(term)
         return term
 
@@ -764,6 +761,10 @@ class Interp:
             self.p.assume(term >= 0)
             if isinstance(c.n, int):
                 self.p.assume(term < 256 ** c.n)
+                if c.n <= 8:        # definitional link between the integer value and the bytes
+                    bs = [self.ob_at(c, j) for j in range(c.n)]
+                    order = bs if endian == "little" else list(reversed(bs))
+                    self.p.assume(term == z3.Sum([b * I(256 ** j) for j, b in enumerate(order)]))
             self.p.blen[id_key(c.t)] = c.n
             return self.int_from_term(term, 8 * c.n if isinstance(c.n, int) else 10 ** 6)
         if not self.total_concrete(chunks):
@@ -1036,5 +1037,21 @@ class Interp:
         return z3.Sum([((c.t / I(256 ** j)) % 256) * I(256 ** (c.w - 1 - j)) for j in range(c.w)])
 
 
+class TKey:
+    """hashable key for a z3 term that keeps the term alive (z3 ast ids are recycled once a
+    term is garbage collected, so raw ids must never be used as dictionary keys)"""
+    __slots__ = ("t", "h")
+
+    def __init__(self, t):
+        self.t = t
+        self.h = t.hash()
+
+    def __hash__(self):
+        return self.h
+
+    def __eq__(self, o):
+        return isinstance(o, TKey) and self.t.eq(o.t)
+
+
 def id_key(t):
-    return t.get_id()
+    return TKey(t)
